@@ -69,6 +69,8 @@ def base_packets():
     ar_b = rr(ptr(ar0), 28, 22, [0] * 15 + [2])
     ar_c = rr([1, 119] + ptr(ar0), 1, 23, [3, 3, 3, 3])
     P.append(hdr(9, 0x8180, 1, 2, 0, 4) + q + an_a + an_b + ar_a + ar_b + opt([(10, [1, 2, 3, 4, 5, 6, 7, 8]), (12, []), (3, [0xAA])]) + ar_c)
+    # 9: the question asks for type 41 (the code of the OPT pseudo-record) and an OPT record with an option is present
+    P.append(hdr(10, 0x8180, 1, 1, 0, 2) + name("q", "ex") + [0, 41, 0, 1] + rr(ptr(12), 1, 30, [7, 7, 7, 7]) + rr(name("g", "ex"), 28, 31, [0] * 10 + [255, 255, 192, 0, 2, 1]) + opt([(10, [9, 9])]))
     return P
 
 
@@ -224,7 +226,7 @@ def histories(seed, tier, extra_packets=()):
     out = []
     so, co = simple_ops(), cursor_ops()
     # every single operation on every base packet (and on the two synthesised packets)
-    for b in bases[:9]:
+    for b in bases[:10]:
         for o in so + co:
             out.append(scen(b, [o]))
     for syn in ("empty", "example.com"):
@@ -238,7 +240,7 @@ def histories(seed, tier, extra_packets=()):
               cursor_op("AR", True, 1, [("delete", [])]), cursor_op("AN", False, 0, [("uncompress", [])]), cursor_op("AN", False, 0, [("delete", [])]),
               cursor_op("AR", True, 0, [("set_ttl", [1, 2, 128, 0])]), cursor_op("AR", True, 1, [("set_raw_name", name("a"))])]
     step = 3 if tier == "quick" else 1
-    for bi, b in enumerate(bases[:9]):
+    for bi, b in enumerate(bases[:10]):
         for fi, f in enumerate(firsts):
             seconds = (so + co)[(bi + fi) % step::step]
             if tier == "quick":
